@@ -49,10 +49,12 @@ const (
 	schedGap59
 	schedGap61
 	schedGap95
+	schedIdleAttached // one carrier that stays attached without traffic beyond the retention time (cut at 140 s)
+	schedLate         // a session that only arrives after 100 s (one carrier)
 	nSched
 )
 
-var schedName = []string{"single", "cut-in-clientid", "cut-in-prefix", "cut-in-body", "cut-at-boundary", "overlap", "gap-30s", "gap-59s", "gap-61s", "gap-95s"}
+var schedName = []string{"single", "cut-in-clientid", "cut-in-prefix", "cut-in-body", "cut-at-boundary", "overlap", "gap-30s", "gap-59s", "gap-61s", "gap-95s", "idle-attached-140s", "late-single"}
 
 type carrier struct {
 	sess    int
@@ -70,13 +72,13 @@ type c05World struct {
 	ids      []turbotunnel.ClientID
 	carriers []*carrier
 	// what the KCP stand-in saw
-	got       []string // "addr|payload"
-	accepted  map[int]string // session -> address looked up at "accept"
-	acceptAt  map[int]time.Duration
-	downSent  map[int][]string // session -> downstream packets written, in order
-	scheds    []int
-	light     bool
-	problems  []string
+	got      []string       // "addr|payload"
+	accepted map[int]string // session -> address looked up at "accept"
+	acceptAt map[int]time.Duration
+	downSent map[int][]string // session -> downstream packets written, in order
+	scheds   []int
+	light    bool
+	problems []string
 }
 
 func upPacket(sess, car, seq int, size int) []byte {
@@ -119,6 +121,9 @@ func (w *c05World) runSession(sess int, sched int) {
 		c.conn.Feed(frame(p))
 		c.sent = append(c.sent, string(p))
 	}
+	if sched == schedLate {
+		vs.Sleep(100 * time.Second)
+	}
 	c1 := w.startCarrier(sess)
 	switch sched {
 	case schedCutInID:
@@ -139,7 +144,11 @@ func (w *c05World) runSession(sess int, sched int) {
 		c2.conn.Cut()
 	}
 	switch sched {
-	case schedSingle:
+	case schedIdleAttached:
+		// nothing more is sent; the carrier stays up until long after the session's record has expired
+		vs.Sleep(140 * time.Second)
+		c1.conn.Cut()
+	case schedSingle, schedLate:
 		send(c1, 1)
 		vs.Sleep(time.Second)
 		c1.conn.Cut()
@@ -262,6 +271,9 @@ func init() {
 			for i := 0; i < nSess; i++ {
 				if only >= 0 {
 					w.scheds = append(w.scheds, only)
+				} else if i > 0 && x.Cfg["other"] == "late" {
+					// the other sessions arrive 100 s later, with ClientIDs the server has not seen before
+					w.scheds = append(w.scheds, schedLate)
 				} else if i > 0 && x.Cfg["other"] == "single" {
 					// the other sessions are plain single-carrier clients arriving at the same instant
 					w.scheds = append(w.scheds, schedSingle)
